@@ -172,9 +172,11 @@ class Ctx:
         self.validated += len(res)
         return res
 
-    def diff_unhooked(self, mod, cases):
+    def diff_unhooked(self, mod, cases, collect=False):
         """Serval-style validation of the encoding: mod.concrete(case) is evaluated in this (hooked, stubbed)
-        process and in a clean subprocess on the unhooked module; results must be identical."""
+        process and in a clean subprocess on the unhooked module; results must be identical.
+        collect=True returns the mismatches [(case, hooked, unhooked)] instead of raising (C22, where a difference
+        between two runs is what the property is about and is handed to the replay instead)."""
         import tempfile
         mine = []
         for c in cases:
@@ -196,10 +198,14 @@ class Ctx:
             theirs = json.loads(p.stdout.strip().splitlines()[-1])
         finally:
             os.unlink(path)
+        bad = []
         for c, a, b in zip(cases, mine, theirs):
             if a != b:
-                raise HarnessError("hooked module disagrees with the unhooked one on %r: %r vs %r" % (c, a, b))
+                if not collect:
+                    raise HarnessError("hooked module disagrees with the unhooked one on %r: %r vs %r" % (c, a, b))
+                bad.append((c, a, b))
         self.validated += len(cases)
+        return bad
 
     # ---- finish
     def finish(self):
